@@ -14,7 +14,7 @@ Import ListNotations.
 From MptV Require Import C20.LayoutTypes C20.LayoutConv C20.Gen_Layout C20.LayoutModel C20.LayoutSpec
   C20.LayoutLemmas C20.LayoutAbs C20.LayoutFields C20.LayoutColour C20.LayoutRefineAxis C20.LayoutRefine
   C20.LayoutRefineGraph C20.LayoutMatch C20.LayoutTables C20.LayoutGet C20.LayoutSetProp C20.LayoutCxx C20.LayoutHistory
-  C20.LayoutCxxModel C20.LayoutCxxSpec C20.LayoutCxxProofs.
+  C20.LayoutCxxModel C20.LayoutCxxSpec C20.LayoutCopy C20.LayoutCxxProofs C20.LayoutLoad C20.LayoutLoadSpec C20.LayoutLoadProofs.
 Local Open Scope Z_scope.
 
 (* every set / reset / assignment step is the specification's step on the listed properties *)
@@ -173,11 +173,50 @@ Proof. exact cxx_new_defaults. Qed.
 (* ---- mpt++ classes, own logic (LayoutCxxModel.v): constructors with arguments, clone / struct copy, direct setters, an
    object as value of a named property, convert(), graph items / bind, class layout ---- *)
 (* every step of the mpt++ harness language acts on the listed properties of both objects as LayoutCxxSpec.xsstep says *)
+(* [strs_ok]: the strings an object holds are C strings (no NUL inside); [good o] = [inv o] and [strs_ok o]: kept by every
+   step (C20_cxx_step_keeps), established by every constructor (C20_cxx_construct_good) *)
 Theorem C20_cxx_step_refines : forall st p,
-  same_kind (xa st) (xb st) -> inv (xa st) -> inv (xb st) -> xop_ok p ->
+  same_kind (xa st) (xb st) -> inv (xa st) -> inv (xb st) -> strs_ok (xa st) -> strs_ok (xb st) -> xop_ok p ->
   fst (xsstep (kind_of (xa st)) (abs (xa st), abs (xb st)) p) =
   (abs (xa (fst (xstep st p))), abs (xb (fst (xstep st p)))).
 Proof. exact xstep_refines. Qed.
+Theorem C20_cxx_step_keeps : forall st p,
+  same_kind (xa st) (xb st) -> good (xa st) -> good (xb st) -> xop_ok p ->
+  same_kind (xa (fst (xstep st p))) (xb (fst (xstep st p))) /\ good (xa (fst (xstep st p))) /\ good (xb (fst (xstep st p))).
+Proof. exact xstep_keeps. Qed.
+Theorem C20_cxx_construct_good : forall k arg, good (cxx_construct k arg).
+Proof. exact good_construct. Qed.
+Theorem C20_set_keeps_strs : forall o other name s, same_kind o other -> wf_osrc s -> inv o -> strs_ok o -> strs_ok other ->
+  strs_ok (snd (obj_set o name (resolve s other))).
+Proof. exact set_keeps_strs. Qed.
+(* object::set(const object &, logger): every property of the other object by value (inheritance of layout items, copies
+   made by bind): on the listed properties it is the specification's copy, the invariants are kept.  With the grid type
+   of a graph AS PATCHED (docs/C20_grid_by_value.diff) *)
+Theorem C20_object_set_refines : forall log tg src, inv tg -> strs_ok tg -> strs_ok src ->
+  abs (snd (object_set_from log tg src)) = spec_copy (kind_of tg) log (abs src) (abs tg) /\
+  inv (snd (object_set_from log tg src)) /\ strs_ok (snd (object_set_from log tg src)) /\
+  kind_of (snd (object_set_from log tg src)) = kind_of tg.
+Proof. exact object_set_refines. Qed.
+(* the text metatype of a parsed node as source of a named property acts as the plain string it answers with *)
+Theorem C20_meta_set_is_value : forall o n t, no_nul t = true -> t <> [] ->
+  meta_set o n t = obj_set o (Some n) (Some (SValue (VS (Some t)))).
+Proof. exact meta_set_is_value. Qed.
+Theorem C20_meta_string_text : forall t, no_nul t = true -> meta_string t = Some t.
+Proof. exact meta_string_text. Qed.
+(* mpt_lattr_set *)
+Theorem C20_lattr_set4_spec : forall a w st sy sz,
+  lattr_set4 a w st sy sz =
+  match spec_lattr4 w st sy sz with
+  | Some (w', st', sy', sz') => (SOk, mklattr st' w' sy' sz')
+  | None => (SFail BadValue, a)
+  end.
+Proof. exact lattr_set4_spec. Qed.
+(* the whole-object query (as patched by docs/C20_total_padding.diff): an object equal to the default object in every
+   member shows the documented defaults, so a listed property away from its default is reported as a change *)
+Theorem C20_total_default : forall o, obj_is_default o = true -> abs o = defaults (kind_of o).
+Proof. exact total_default. Qed.
+Theorem C20_total_reports_change : forall o, all_default (kind_of o) (abs o) = false -> pe_ret (obj_total o) = 1.
+Proof. exact total_reports_change. Qed.
 Theorem C20_cxx_construct_inv : forall k arg, inv (cxx_construct k arg).
 Proof. exact inv_construct. Qed.
 Theorem C20_cxx_axis_ctor_props : forall f, abs (cxx_new_axis f) = defaults KAxis.
@@ -197,9 +236,29 @@ Proof. exact named_other_refines. Qed.
 Theorem C20_cxx_bind_failure : forall g x r x', graph_bind g x = (r, x') -> r < 0 -> x' = x.
 Proof. exact bind_failure. Qed.
 Theorem C20_cxx_bind_axes_named : forall g x x' names, graph_bind g x = (1, x') -> gr_axes g = Some names ->
-  map fst (gx_axes x') = map Some (words names) /\
-  Forall (fun nv => exists w, fst nv = Some w /\ find_axis (gx_items x) w = Some (snd nv)) (gx_axes x').
+  map fst (gx_axes x') = map (fun w => Some (last_seg w)) (words names) /\
+  Forall (fun nv => exists w, fst nv = Some (last_seg w) /\ find_rel find_axis [gx_items x] w = Some (snd nv)) (gx_axes x').
 Proof. exact bind_axes_named. Qed.
+(* the same with any relation (bind with the items of another graph, a graph of a layout: own items, then the layout's) *)
+Theorem C20_cxx_bind_failure_rel : forall g x chain r x', graph_bind_rel g x chain = (r, x') -> r < 0 -> x' = x.
+Proof. exact bind_failure_rel. Qed.
+Theorem C20_cxx_bind_axes_named_rel : forall g x chain x' names, graph_bind_rel g x chain = (1, x') -> gr_axes g = Some names ->
+  map fst (gx_axes x') = map (fun w => Some (last_seg w)) (words names) /\
+  Forall (fun nv => exists w, fst nv = Some (last_seg w) /\ find_rel find_axis chain w = Some (snd nv)) (gx_axes x').
+Proof. exact bind_axes_named_rel. Qed.
+Theorem C20_bind_plain_name : forall w, existsb (N.eqb 46) w = false -> existsb (N.eqb 58) w = false ->
+  find_key w = Some w /\ last_seg w = w.
+Proof. exact plain_name. Qed.
+(* reading a layout file (layout::load on the entries the parser delivers, add_items, bind): the items, their properties,
+   the bound axes / worlds and the graph list are the specification's (LayoutLoadSpec.v: items at their documented
+   defaults, parents' properties copied in turn, the entries assigned in their order), for all well formed entries *)
+Theorem C20_load_refines : forall ents lay gs, Forall wf_tent ents ->
+  let R := load_entries mops ents lay gs in
+  load_entries sops ents (labs lay) (fgraphs gs) =
+    (fst (fst (fst R)), labs (snd (fst (fst R))), map fnode (snd (fst R)), fgraphs (snd R)) /\ Forall good_node (snd (fst R)).
+Proof. exact load_entries_refines. Qed.
+Theorem C20_min_scale_refines : forall gs, min_scale sops (fgraphs gs) = min_scale mops gs.
+Proof. exact min_scale_refines. Qed.
 (* class layout (as patched by docs/c20_proposed_layout_object.diff): set / reset / NULL-name assignment *)
 Theorem C20_layout_step_refines : forall (a b : layoutobj) (tb : bool) n s, lay_src_ok s ->
   let src : option source := match s with XReset => None | XText t o => Some (SText t o) | XValue v => Some (SValue v) | XOther => None end in
@@ -300,10 +359,32 @@ Proof. repeat split; vm_compute; reflexivity. Qed.
 Example C20_ex_cxx_bind :
   let items := [(Some (bs "ay"), GIAxis (typed_axis 2)); (Some (bs "ax"), GIAxis (typed_axis 1)); (Some (bs "wl"), GIWorld def_world)] in
   let g := set_gr_axes (Some (bs " ax  ay")) def_graph in
-  (fst (graph_bind g (mkgx items [] [] false)) = 1
-   /\ map fst (gx_axes (snd (graph_bind g (mkgx items [] [] false)))) = [Some (bs "ax"); Some (bs "ay")]
-   /\ fst (graph_bind (set_gr_axes (Some (bs "no")) def_graph) (mkgx items [] [] false)) = - MissingData).
+  (fst (graph_bind g (mkgx items [] [] false lim0 [])) = 1
+   /\ map fst (gx_axes (snd (graph_bind g (mkgx items [] [] false lim0 [])))) = [Some (bs "ax"); Some (bs "ay")]
+   /\ fst (graph_bind (set_gr_axes (Some (bs "no")) def_graph) (mkgx items [] [] false lim0 [])) = - MissingData
+   /\ map fst (gx_axes (snd (graph_bind_rel (set_gr_axes (Some (bs "p:ax ay.")) def_graph) gx_empty [[(Some (bs "p:ax"), GIAxis def_axis)]; items])))
+      = [Some (bs "ax"); Some (bs "ay.")]).
 Proof. repeat split; vm_compute; reflexivity. Qed.
+(* copy by properties, the whole-object query, mpt_lattr_set, a layout file *)
+Example C20_ex_object_set :
+  let src := snd (obj_set (snd (obj_set (OGraph def_graph) (Some (bs "align")) (Some (SText (Some (bs "bez")) no_torc))))
+                          (Some (bs "axes")) (Some (SText (Some (bs "ax ay")) no_torc))) in
+  good src /\ abs (snd (object_set_from false (OGraph def_graph) src)) = abs src
+  /\ fst (object_set_from false (OGraph def_graph) src) = true
+  /\ pe_ret (obj_total src) = 1 /\ pe_ret (obj_total (OGraph def_graph)) = 0
+  /\ lattr_set4 def_lattr 11 0 0 0 = (SFail BadValue, def_lattr) /\ lattr_set4 def_lattr (-1) 5 8 20 = (SOk, mklattr 5 1 8 20).
+Proof. repeat split; try exact Logic.I; try (unfold strs_ok; repeat constructor); vm_compute; try reflexivity; discriminate. Qed.
+Example C20_ex_load :
+  let ents := [TEProp (mkfp (bs "name") (bs "lay1") no_torc);
+               TESect (mkfs (bs "text tx") [GEProp (mkfp (bs "size") (bs "20") no_torc); GEProp (mkfp (bs "value") (bs "Hi") no_torc)]);
+               TESect (mkfs (bs "text t2 : tx") [GEProp (mkfp (bs "align") (bs "6") no_torc)]);
+               TESect (mkfs (bs "graph g") [GEProp (mkfp (bs "axes") (bs "ax") no_torc); GEItem (mkfl (bs "xaxis ax") [mkfp (bs "title") (bs "X") no_torc])])] in
+  Forall wf_tent ents
+  /\ (let '(ok, lay, tops, gs) := load_entries mops ents def_layout [] in
+      ok = true /\ ly_alias lay = Some (bs "lay1") /\ List.length tops = 3%nat /\ List.length gs = 1%nat
+      /\ map (fun t => aget (abs (tn_obj t)) (bs "size")) tops = [Some (PInt 20); Some (PInt 20); None]
+      /\ map (fun t => map fst (tn_axes t)) tops = [[]; []; [Some (bs "ax")]]).
+Proof. split; [repeat constructor|vm_compute; repeat split; reflexivity]. Qed.
 Example C20_ex_layout :
   layout_set def_layout (Some (bs "NAME")) (Some (SText (Some (bs "la")) no_torc)) = (SOk, mklay (Some (bs "la")) None)
   /\ layout_set (mklay (Some (bs "la")) (Some (bs "f"))) (Some (bs "alias")) None = (SOk, mklay None (Some (bs "f")))
@@ -350,3 +431,17 @@ Print Assumptions C20_cxx_named_object_source.
 Print Assumptions C20_cxx_bind_failure.
 Print Assumptions C20_cxx_bind_axes_named.
 Print Assumptions C20_layout_step_refines.
+Print Assumptions C20_cxx_step_keeps.
+Print Assumptions C20_cxx_construct_good.
+Print Assumptions C20_set_keeps_strs.
+Print Assumptions C20_object_set_refines.
+Print Assumptions C20_meta_set_is_value.
+Print Assumptions C20_meta_string_text.
+Print Assumptions C20_lattr_set4_spec.
+Print Assumptions C20_total_default.
+Print Assumptions C20_total_reports_change.
+Print Assumptions C20_cxx_bind_failure_rel.
+Print Assumptions C20_cxx_bind_axes_named_rel.
+Print Assumptions C20_bind_plain_name.
+Print Assumptions C20_load_refines.
+Print Assumptions C20_min_scale_refines.
